@@ -1357,7 +1357,6 @@ class Flatten(DomainMapping):
 @dataclass(eq=False)
 class Concatenate(CanBehaveLikeAVariable[T]):
     _child_: CanBehaveLikeAVariable[T]
-    _invert_: bool = field(init=False, default=False)
 
     def __post_init__(self):
         super().__post_init__()
@@ -1987,8 +1986,12 @@ def Not(operand: Any) -> SymbolicExpression:
         operand = ElseIf(Not(operand.left), Not(operand.right))
     elif isinstance(operand, OR):
         operand = AND(Not(operand.left), Not(operand.right))
+    elif not hasattr(operand, '_invert_'):
+        # e.g. a universal quantification or a conclusion selector: nothing would read the flag, and the "negated"
+        # condition would silently keep its meaning.
+        raise NotImplementedError(f"Symbolic NOT operations on {type(operand).__name__} operands are not supported.")
     else:
-        operand._invert_ = not getattr(operand, '_invert_', False)
+        operand._invert_ = not operand._invert_
     return operand
 
 
